@@ -128,6 +128,14 @@ def check_state(rep, st, sels, stats, only=None):
         if not explained:
             raise MachineryError(f"state {st.sid} has non-finite outputs on the query rows: not usable for C18")
         return
+    # ---- the same query in other containers: list of lists, Fortran order, non-contiguous view ------------------------------
+    bigv = np.zeros((2 * len(Q), 2 * Q.shape[1]))
+    bigv[::2, ::2] = Q
+    for lname, Ql in (("list", Q.tolist()), ("fortran", np.asfortranarray(Q)), ("view", bigv[::2, ::2])):
+        for name, (fn, exact) in outs.items():
+            if name in full and not only and not name.startswith("tree_") and not name.startswith("_"):
+                cmp_.check(name, "layout", lambda Ql=Ql: fn(Ql), full[name], exact, f"the query array given as {lname}", {"Q": Q.tolist(), "layout": lname},
+                           tags=("layout", lname), key=f"{st.sid}|{name}|{lname}")
     # ---- a long query (hundreds of rows): the same rows repeated must get the same answers, whatever the array length ---
     reps = 150 if len(Q) <= 5 else 60
     big = np.tile(Q, (reps, 1))
